@@ -4,7 +4,6 @@ import (
 	"bytes"
 	"fmt"
 	"github.com/bluenviron/mediacommon/v2/pkg/formats/fmp4"
-	"math"
 	"runtime"
 	"strings"
 	"sync/atomic"
@@ -259,7 +258,7 @@ func scMuxBurst(mode string) Scenario {
 						if sg.Gap {
 							continue
 						}
-						if rounded := int(math.Round(sg.Duration.Seconds())); rounded > tr.pl.TargetDuration {
+						if rounded := roundEXTINF(sg.Duration); rounded > tr.pl.TargetDuration {
 							r.Fail("target-duration", "below-extinf", "reader %d: a playlist of %s lists segment %d with EXTINF %v under EXT-X-TARGETDURATION:%d", i, lead, tr.pl.MediaSequence+k, sg.Duration, tr.pl.TargetDuration)
 							break
 						}
